@@ -140,6 +140,51 @@ class OKey:
         return hash(self.n)
 
 
+class RInt(int):
+    """user-defined totally ordered key that SUBCLASSES int and orders in reverse numeric
+    order: must go through the rich-compare fallback, not the exact-int fast path"""
+
+    def __lt__(self, o):
+        return int(self) > int(o)
+
+    def __gt__(self, o):
+        return int(self) < int(o)
+
+    def __le__(self, o):
+        return int(self) >= int(o)
+
+    def __ge__(self, o):
+        return int(self) <= int(o)
+
+    def __eq__(self, o):
+        return int(self) == int(o)
+
+    def __hash__(self):
+        return hash(int(self))
+
+
+class RStr(str):
+    """str subclass ordered in reverse lexicographic order"""
+
+    def __lt__(self, o):
+        return str(self) > str(o)
+
+    def __gt__(self, o):
+        return str(self) < str(o)
+
+    def __le__(self, o):
+        return str(self) >= str(o)
+
+    def __ge__(self, o):
+        return str(self) <= str(o)
+
+    def __eq__(self, o):
+        return str(self) == str(o)
+
+    def __hash__(self):
+        return hash(str(self))
+
+
 class Val:
     __slots__ = ("n", "__weakref__")
 
@@ -157,6 +202,10 @@ def make_key(kind, k):
         return int(str(int_of_ord(k)))          # a fresh int object every time
     if kind == "str":
         return "".join(["k", "%07d" % k])       # a fresh, non-interned str object
+    if kind == "isub":
+        return RInt(10 ** 9 - 7 * k)            # larger ordinal = smaller int = greater key
+    if kind == "ssub":
+        return RStr("k%07d" % (9999999 - k))
     return OKey(k)
 
 
